@@ -297,7 +297,7 @@ func main() {
 		return
 	}
 
-	st := &hx.Stats{Rule: "a case is a history on one router: 3-6 steps, each optionally replacing the tree (Handle/Update/Delete) and then sending a tagged request (direct, trailing-slash, other method, OPTIONS, no route) through ServeHTTP or doing a manual Lookup; before every acquisition chosen leftovers are planted in every resettable field of the pooled context; handlers set headers, write, mutate the request, Clone, CloneWith (own or new writer/request), nested Lookup; every observation is compared with the model (view + raw field dump) and with the view the specification derives from the current request alone; clones are re-inspected after every later step. non-trivial = the history contains a Clone, CloneWith or Lookup; distinct = distinct histories (every token is unique)"}
+	st := &hx.Stats{Rule: "a case is a history on one router: 3-6 steps, each optionally replacing the tree (Handle/Update/Delete) and then sending a tagged request (direct, trailing-slash, other method, OPTIONS, no route) through ServeHTTP or doing a manual Lookup; before every acquisition chosen leftovers are planted in every resettable field of the pooled context; handlers set headers, write, mutate the request, Clone, CloneWith (own or new writer/request), nested Lookup; hostname route families (static and parameter labels as siblings) with expectations from a fresh router; every observation is compared with the model (view + raw field dump) and with the view the specification derives from the current request alone; clones are re-inspected after every later step. non-trivial = the history contains a Clone, CloneWith or Lookup; distinct = distinct histories (every token is unique). Separately: host sequences replayed 3x on one router without planting (natural leftovers), each request compared with the same request on a fresh router; and a concurrent mix"}
 	ncases := 130
 	workers, perWorker, concEmit := 6, 150, 300
 	if tier == "thorough" {
@@ -336,7 +336,7 @@ func main() {
 				b.kinds["pool-stir:Has+Reverse"]++
 			}
 			if b.rnd.Pct(80) {
-				s.request(hx.Pick(b.rnd, []string{"direct", "direct", "tsr", "tsr", "othermethod", "options", "noroute"}))
+				s.request(hx.Pick(b.rnd, []string{"direct", "direct", "tsr", "tsr", "othermethod", "options", "noroute", "hostfail", "hostfail"}))
 			} else {
 				s.doLookup(nil, 1)
 			}
@@ -364,7 +364,42 @@ func main() {
 		}
 	}
 
-	nHist := len(terms)
+	// host sequences with natural leftovers, expected = the same request on a fresh router
+	// Many sequences run in Go; Coq evaluates every observation of the sequences an informal Go pre-check
+	// marks as suspicious, and of a budgeted number of the others.
+	nSeq, seqBudget := 3000, 25
+	if tier == "thorough" {
+		nSeq, seqBudget = 15000, 200
+	}
+	hsN, hsAll, hsSusp := 0, 0, 0
+	for i := 0; i < nSeq; i++ {
+		obs, susp := hostSeq(rnd.Fork(), 5000+i, st)
+		hsAll += len(obs)
+		if susp {
+			hsSusp++
+		}
+		if !susp && i >= seqBudget {
+			continue
+		}
+		if susp && hsSusp > 40 {
+			continue // enough failing inputs
+		}
+		for _, o := range obs {
+			outT := fmt.Sprintf("OutObs (Ok %s) %s", o.v.coq(), Raw{Req: -1, Route: -1, PNil: true, TNil: true, CQNil: true}.coq())
+			if o.bad {
+				outT = "OutPanic"
+			}
+			terms = append(terms, fmt.Sprintf("(mkCase false [] [%s] [%s] %s)", outT, o.spec, nN(0)))
+			humans = append(humans, o.human)
+			hsN++
+		}
+	}
+	st.Distribution["hostseq:observations-run"] = hsAll
+	st.Distribution["hostseq:sequences-suspicious"] = hsSusp
+	st.Count("hostseq:sequences")
+	st.Distribution["hostseq:sequences"] = nSeq
+	st.Distribution["hostseq:observations-evaluated"] = hsN
+	nHist := len(terms) - hsN
 	// concurrent mixes: specification only
 	debug.SetGCPercent(100)
 	obs := concurrent(rnd.Fork(), workers, perWorker, st)
@@ -396,6 +431,7 @@ func main() {
 			"Definition witn := Eval vm_compute in witness_cases cases.\nPrint witn.\n",
 	}
 	// interleave expensive (histories) and cheap (concurrent observations) cases so shards are balanced
+	// (host-sequence observations are cheap too: they sit after the histories)
 	ia, ib := 0, nHist
 	nb := len(terms) - nHist
 	for ia < nHist || ib < len(terms) {
